@@ -244,3 +244,11 @@ def check(program: Program, run: Run) -> None:
                         where=fd.where, rule="R6 (inherited from C17/R3)")
     if n6 < 60:
         raise AnalysisError(f"instance count below floor: traversal obligations {n6}")
+
+    # ---- a memoised namespace decision is inherited by builders copied from a rendered one
+    from ..families import memo_methods
+    selc = program.cls("Selectable")
+    for f7, deco in memo_methods(program):
+        if f7.cls is not None and (f7.cls.is_subclass_of(selc) or f7.cls is selc):
+            run.finding(f"C11/memo-inherited:{f7.qualname}", f"{f7.qualname} is a {deco}: the value computed when an ancestor was rendered (one source, no qualification needed) is inherited by every builder copied from it, "
+                        "so a join / second FROM item added afterwards does not turn qualification on", where=f7.loc(), rule="R1")
